@@ -1,8 +1,90 @@
 """C16 — every shipped template runs to completion and keeps the stack balanced (spec/Run.tla, Wiring.tla)."""
+import json, os
 import vlib
 from checks import runlib
+from checks.templates_grid import specs
 
-MANIFEST = None   # filled in below once the Wiring model is in place
+MANIFEST = {
+    "modules": ["Wiring", "Run"],
+    "text": "Wiring.tla interprets the component tree of every template (extracted from the code by name-preserving "
+            "serialisation) with leaves reduced to their stack effect (spec/effects.json) and conditions to scripts; TLC "
+            "explores every template x every branch-outcome script up to the bound and reports NoUnderflow / PassBalanced / "
+            "OneAtEnd per template. Run.tla binds the same effect table to the code: all 21 templates run over parameter "
+            "grids x seeds x instances x iteration counts under the step observer, and TLC validates every recorded step "
+            "(observed stack delta = table entry, operands present, balanced passes, population-size bounds at the end of "
+            "each main-loop pass) and the end of every run (constructor accepted the valid parameters, Ok result, one "
+            "population left, exactly the requested number of iterations).",
+    "technique": "TLA+ spec + TLC exploration of extracted template trees + TLC trace validation of step-observer traces",
+    "design_ref": "DESIGN.md §6 C16, §4",
+    "note": "the effect table is part of the spec; an unknown component name is a tool error, not a verdict",
+}
+
+
+def conv(n):
+    return [stmt(c) for c in n]
+
+
+def stmt(c):
+    if isinstance(c, list):
+        return {"k": "block", "v": "-", "b": conv(c), "e": []}
+    nm = c.get("$")
+    if nm == "Loop":
+        return {"k": "while", "v": "-", "b": conv(c["do"]), "e": []}
+    if nm == "Branch":
+        if c["else_body"] == "None":
+            return {"k": "if", "v": "-", "b": conv(c["if_body"]), "e": []}
+        return {"k": "ifelse", "v": "-", "b": conv(c["if_body"]), "e": conv(c["else_body"])}
+    if nm == "Scope":
+        return {"k": "scope", "v": "-", "b": conv(c["body"]), "e": []}
+    return {"k": "leaf", "v": nm, "b": [], "e": []}
+
+
+def wiring(ctx):
+    """(A) abstract interpretation of the extracted trees of all templates, all branch outcomes up to the bound."""
+    seen, uniq = set(), []
+    for s in specs(ctx.quick, [0], [2]):
+        key = (s["template"], json.dumps(s["params"], sort_keys=True))
+        if key not in seen:
+            seen.add(key)
+            uniq.append(s)
+    spath = os.path.join(ctx.work, "trees.specs.ndjson")
+    with open(spath, "w") as f:
+        for s in uniq:
+            f.write(json.dumps(s) + "\n")
+    tpath = os.path.join(ctx.work, "trees.ndjson")
+    ctx.harness("templates", "trees", **{"in": spath, "out": tpath})
+    wpath = os.path.join(ctx.work, "wiring.trees.ndjson")
+    shapes = set()
+    with open(wpath, "w") as f:
+        for line in open(tpath):
+            r = json.loads(line)
+            if r["tree"] == "ctor_err":
+                ctx.direct_violation("template constructor rejected valid parameters", {"t": r["template"], "ev": "ctor"},
+                                     {"driver": "templates-trees"})
+                continue
+            prog = conv(r["tree"])
+            shape = json.dumps([r["template"], prog])
+            if shape in shapes:       # same structure for different parameter values: once is enough
+                continue
+            shapes.add(shape)
+            f.write(json.dumps({"template": r["template"], "prog": prog}) + "\n")
+    cfg = "SPECIFICATION WSpec\nCONSTANTS\n  MaxScript = %d\nINVARIANT NoUnknown Verdict\nCHECK_DEADLOCK FALSE\n" % (5 if ctx.quick else 9)
+    mc = ctx.tlc_mc("Wiring", cfg, "wiring", workers=1, timeout=3000, java_opts="-Xss512m", env_extra={"TREES": wpath})
+    bad = {}
+    ntemplates = set()
+    for line in open(mc["out"]):
+        if line.startswith('<<"WIRING"'):
+            v = json.loads(json.loads(line.strip()[len('<<"WIRING", '):-2]))
+            ntemplates.add(v["template"])
+            if v["under"] or v["unbal"] or v["h"] != 1:
+                bad.setdefault(v["template"], v)
+    if len(ntemplates) < 21:
+        raise vlib.ToolError("Wiring saw only %d templates" % len(ntemplates))
+    for t, v in sorted(bad.items()):
+        ctx.direct_violation("template wiring is not stack-balanced for some branch outcomes",
+                             {"t": t, "ev": "exit", "role": "loop_body", "wiring": v}, {"driver": "wiring"})
+    vlib.log("[wire] %d templates, %d distinct tree shapes, %d with unbalanced / underflowing wiring" %
+             (len(ntemplates), len(shapes), len(bad)))
 
 RULE = ("cases = runs of the 21 shipped templates over parameter grids x seeds x instances under the step observer; "
         "evaluations = recorded component steps / block boundaries; non-trivial = the step changed the projected state; "
@@ -11,6 +93,7 @@ RULE = ("cases = runs of the 21 shipped templates over parameter grids x seeds x
 
 def run(ctx):
     q = ctx.quick
+    wiring(ctx)
     runlib.run_templates(ctx, ["C16"], seeds=[ctx.seed, ctx.seed + 1, ctx.seed + 2] if q else list(range(ctx.seed, ctx.seed + 20)),
                          iters=[0, 1, 5] if q else [0, 1, 5, 30])
     return ctx.finish(RULE)
